@@ -1,5 +1,350 @@
-import EnvVerif.Lemmas.Basic
+/-
+  Props/C13.lean — compression (`src/extension/compress.rs`).
+
+  "Compressing an envelope, or its subject, keeps every digest; uncompressing returns the
+  identical envelope — also when the subject is itself a node; compressing something
+  already compressed changes nothing; content whose digest is not the declared one, or
+  corrupted data, is refused."
+
+  Hypotheses (never axioms).
+  * `L : DeflateLaws Z` (Lemmas/Laws.lean): `inflate (deflate b) = some b`; satisfied by
+    `ToyDeps.toyDeflate` and by `ToyDeps.toyDeflate2` (which does shorten every envelope
+    encoding, so the deflated form of `Compressed` is exercised).
+  * `RoundTrips h x` — `decode h (encode x) = .ok x` for the one envelope `x` that is
+    compressed (the envelope, or its subject): the conclusion of C05 `decode_encode` (from
+    `CodecLaws`, `Inv h x`, `EncShape x`, `Encodable x`).  It is not taken for every `Inv`
+    envelope, because that is false (`Obs.not_forall_inv_roundTrips`).
+  * `Inv h e` where the node structure matters (`compress_subject`, `uncompress_subject`).
+
+  `compress` of an already compressed envelope returns it unchanged, so for such an
+  original the round trip returns its uncompressed content: same digest
+  (`uncompress_digest`), which is all the code can mean; the identity statements therefore
+  ask that the thing compressed is not compressed already.
+
+  `uncompressSubject_node` is the behaviour after the repair of F6 in /repo
+  (`uncompress_subject` keeps the uncompressed envelope as the subject even when it is a
+  node, and does not merge the outer assertions into it).
+-/
+import EnvVerif.Lemmas.ObscureLemmas
 namespace EnvVerif
-/-- placeholder while the property theorems are being written -/
-theorem c13_sort_asc_id {as : List Env} (hs : AscDigests as) : sortByDigest as = as := sortByDigest_of_asc hs
+open Env
+
+section
+variable (h : Hash) (Z : Deflate)
+
+/-! ### `compress` -/
+
+/-- exact refusal conditions -/
+theorem compress_ok_iff (e : Env) :
+    (∃ z, compress Z e = .ok z) ↔ (e.isEncrypted = false ∧ e.isElided = false) := by
+  cases e <;> simp [compress, Env.isEncrypted, Env.isElided]
+
+/-- the two errors, exactly -/
+theorem compress_err_iff (e : Env) (x : String) :
+    compress Z e = .err x ↔
+      (x = "AlreadyEncrypted" ∧ e.isEncrypted = true) ∨ (x = "AlreadyElided" ∧ e.isElided = true) := by
+  cases e <;> simp [compress, Env.isEncrypted, Env.isElided, eq_comm]
+
+theorem compress_no_panic (e : Env) (s : String) : compress Z e ≠ .panic s := by
+  cases e <;> simp [compress]
+
+/-- `compress` of a compressed envelope is that envelope -/
+theorem compress_of_compressed (c : CompMsg) (d : Digest) :
+    compress Z (.compressed c d) = .ok (.compressed c d) := rfl
+
+/-- what `compress` returns otherwise: the compressed encoding, declared with the digest -/
+theorem compress_shape (e z : Env) (hc : e.isCompressed = false) (hz : compress Z e = .ok z) :
+    z = .compressed (compressedOf Z (encode e)) e.digest :=
+  (Obs.compress_ok_of Z hc hz).1
+
+/-- C13: compression keeps the digest -/
+theorem compress_digest (e z : Env) (hz : compress Z e = .ok z) : z.digest = e.digest := by
+  cases hc : e.isCompressed with
+  | false => rw [compress_shape Z e z hc hz]; rfl
+  | true =>
+    cases e with
+    | compressed c d => cases hz; rfl
+    | _ => cases hc
+
+theorem compress_isCompressed (e z : Env) (hz : compress Z e = .ok z) : z.isCompressed = true := by
+  cases hc : e.isCompressed with
+  | false => rw [compress_shape Z e z hc hz]; rfl
+  | true =>
+    cases e with
+    | compressed c d => cases hz; rfl
+    | _ => cases hc
+
+/-- C13: `compress (compress e) = compress e` -/
+theorem compress_idempotent (e z : Env) (hz : compress Z e = .ok z) : compress Z z = .ok z := by
+  have hc := compress_isCompressed Z e z hz
+  cases z with
+  | compressed c d => rfl
+  | _ => cases hc
+
+/-- the result satisfies the invariant -/
+theorem compress_inv (e z : Env) (hi : Inv h e) (hH : ∀ b, (h.H b).Valid)
+    (hz : compress Z e = .ok z) : Inv h z := by
+  cases hc : e.isCompressed with
+  | false =>
+    rw [compress_shape Z e z hc hz]
+    exact ⟨by simp only [WF], by simp only [Canon]; exact Obs.digest_valid hH hi⟩
+  | true =>
+    cases e with
+    | compressed c d => cases hz; exact hi
+    | _ => cases hc
+
+/-! ### `uncompress` -/
+
+/-- C13: uncompressing what `compress` made of an envelope that was not yet compressed
+returns the identical envelope -/
+theorem uncompress_compress (L : DeflateLaws Z) (e z : Env) (hrt : RoundTrips h e)
+    (hc : e.isCompressed = false) (hz : compress Z e = .ok z) : uncompress h Z z = .ok e := by
+  rw [compress_shape Z e z hc hz]
+  exact Obs.uncompress_compressedOf h L hrt
+
+/-- whatever `uncompress` returns has the declared digest -/
+theorem uncompress_digest (e z : Env) (hz : uncompress h Z e = .ok z) : z.digest = e.digest :=
+  Obs.uncompress_digest_eq h Z hz
+
+/-- `uncompress` succeeds exactly when the data uncompresses and decodes to an envelope
+with the declared digest -/
+theorem uncompress_ok_iff (c : CompMsg) (d : Digest) (x : Env) :
+    uncompress h Z (.compressed c d) = .ok x ↔
+      ∃ data, uncompressMsg Z c = some data ∧ decode h data = .ok x ∧ x.digest = d := by
+  constructor
+  · intro hz
+    obtain ⟨c', d', data, heq, hm, hd, hx⟩ := Obs.uncompress_ok h Z hz
+    cases heq
+    exact ⟨data, hm, hd, hx⟩
+  · rintro ⟨data, hm, hd, hx⟩
+    unfold uncompress
+    simp only [hm, hd, hx, bne_self_eq_false, Bool.false_eq_true, if_false]
+
+/-- C13: content whose digest is not the declared one is refused -/
+theorem uncompress_bad_digest (c : CompMsg) (d : Digest) (data : Bytes) (x : Env)
+    (hm : uncompressMsg Z c = some data) (hd : decode h data = .ok x) (hne : x.digest ≠ d) :
+    uncompress h Z (.compressed c d) = .err "InvalidDigest" := by
+  have hb : (x.digest != d) = true := by simpa using hne
+  unfold uncompress
+  simp only [hm, hd, hb, if_true]
+
+/-- C13: data that does not uncompress is refused -/
+theorem uncompress_corrupt (c : CompMsg) (d : Digest) (hm : uncompressMsg Z c = none) :
+    uncompress h Z (.compressed c d) = .err "dep:uncompress-failed" := by
+  unfold uncompress
+  simp only [hm]
+
+/-- ... in particular deflated data that does not inflate, or inflates to something with
+another checksum -/
+theorem uncompress_corrupt_deflated (c : CompMsg) (d : Digest) (hl : c.data.length < c.size)
+    (hbad : Z.inflate c.data = none ∨ ∃ u, Z.inflate c.data = some u ∧ Z.crc u ≠ c.checksum) :
+    uncompress h Z (.compressed c d) = .err "dep:uncompress-failed" := by
+  apply uncompress_corrupt
+  unfold uncompressMsg
+  rw [if_neg (by omega)]
+  rcases hbad with hn | ⟨u, hu, hcrc⟩
+  · simp only [hn]
+  · have hb : (Z.crc u == c.checksum) = false := by simpa using hcrc
+    simp only [hu, hb, Bool.false_eq_true, if_false]
+
+/-- data that decodes to no envelope is refused with the decoder's error -/
+theorem uncompress_undecodable (c : CompMsg) (d : Digest) (data : Bytes) (msg : String)
+    (hm : uncompressMsg Z c = some data) (hd : decode h data = .err msg) :
+    uncompress h Z (.compressed c d) = .err msg := by
+  unfold uncompress
+  simp only [hm, hd]
+
+theorem uncompress_not_compressed (e : Env) (hc : e.isCompressed = false) :
+    uncompress h Z e = .err "NotCompressed" :=
+  Obs.uncompress_not_compressed h Z hc
+
+theorem uncompress_no_panic (e : Env) (s : String) : uncompress h Z e ≠ .panic s :=
+  Obs.uncompress_np h Z e s
+
+/-! ### `compress_subject` -/
+
+/-- an already compressed subject: nothing changes -/
+theorem compressSubject_of_compressed (e : Env) (hc : e.subject.isCompressed = true) :
+    compressSubject h Z e = .ok e := by
+  unfold compressSubject
+  rw [if_pos hc]
+
+/-- exact refusal conditions -/
+theorem compressSubject_ok_iff (e : Env) (hi : Inv h e) :
+    (∃ z, compressSubject h Z e = .ok z) ↔
+      (e.subject.isEncrypted = false ∧ e.subject.isElided = false) := by
+  cases hc : e.subject.isCompressed with
+  | true =>
+    rw [compressSubject_of_compressed h Z e hc]
+    cases hs : e.subject with
+    | compressed c d => simp [Env.isEncrypted, Env.isElided]
+    | _ => rw [hs] at hc; cases hc
+  | false =>
+    rw [Obs.compressSubject_eq h Z hi hc]
+    cases e.subject.isEncrypted <;> cases e.subject.isElided <;> simp
+
+/-- the two errors, exactly -/
+theorem compressSubject_err_iff (e : Env) (x : String) (hi : Inv h e) :
+    compressSubject h Z e = .err x ↔
+      (x = "AlreadyEncrypted" ∧ e.subject.isEncrypted = true) ∨
+      (x = "AlreadyElided" ∧ e.subject.isElided = true) := by
+  cases hc : e.subject.isCompressed with
+  | true =>
+    rw [compressSubject_of_compressed h Z e hc]
+    cases hs : e.subject with
+    | compressed c d => simp [Env.isEncrypted, Env.isElided]
+    | _ => rw [hs] at hc; cases hc
+  | false =>
+    rw [Obs.compressSubject_eq h Z hi hc]
+    cases hs : e.subject with
+    | encrypted m d => simp [Env.isEncrypted, Env.isElided, eq_comm]
+    | elided d => simp [Env.isEncrypted, Env.isElided, eq_comm]
+    | _ => simp [Env.isEncrypted, Env.isElided]
+
+/-- no panic: the `unwrap` inside `replace_subject` never fires on a canonical envelope -/
+theorem compressSubject_no_panic (e : Env) (hi : Inv h e) (s : String) :
+    compressSubject h Z e ≠ .panic s := by
+  cases hc : e.subject.isCompressed with
+  | true => rw [compressSubject_of_compressed h Z e hc]; intro hh; cases hh
+  | false =>
+    rw [Obs.compressSubject_eq h Z hi hc]
+    cases e.subject.isEncrypted <;> cases e.subject.isElided <;> (intro hh; cases hh)
+
+/-- the result: the subject is replaced by its compressed form; the assertions, the case
+(node or not) and the digest are unchanged -/
+theorem compressSubject_shape (e z : Env) (hi : Inv h e) (hc : e.subject.isCompressed = false)
+    (hz : compressSubject h Z e = .ok z) :
+    z.subject = .compressed (compressedOf Z (encode e.subject)) e.subject.digest ∧
+      z.assertions = e.assertions ∧ z.isNode = e.isNode ∧ z.digest = e.digest := by
+  rw [Obs.compressSubject_eq h Z hi hc] at hz
+  split at hz
+  · cases hz
+  · split at hz
+    · cases hz
+    · cases hz
+      cases e <;> exact ⟨rfl, rfl, rfl, rfl⟩
+
+/-- C13: compressing the subject keeps the digest -/
+theorem compressSubject_digest (e z : Env) (hi : Inv h e) (hz : compressSubject h Z e = .ok z) :
+    z.digest = e.digest := by
+  cases hc : e.subject.isCompressed with
+  | true =>
+    rw [compressSubject_of_compressed h Z e hc] at hz
+    cases hz
+    rfl
+  | false => exact (compressSubject_shape h Z e z hi hc hz).2.2.2
+
+/-- the result satisfies the invariant -/
+theorem compressSubject_inv (e z : Env) (hi : Inv h e) (hH : ∀ b, (h.H b).Valid)
+    (hz : compressSubject h Z e = .ok z) : Inv h z := by
+  cases hc : e.subject.isCompressed with
+  | true =>
+    rw [compressSubject_of_compressed h Z e hc] at hz
+    cases hz
+    exact hi
+  | false =>
+    rw [Obs.compressSubject_eq h Z hi hc] at hz
+    split at hz
+    · cases hz
+    · split at hz
+      · cases hz
+      · cases hz
+        exact Obs.compressSubjectSpec_inv h Z hi (Obs.digest_valid hH (Obs.inv_subject hi))
+
+/-! ### `uncompress_subject` -/
+
+theorem uncompressSubject_not_compressed (e : Env) (hc : e.subject.isCompressed = false) :
+    uncompressSubject h Z e = .ok e :=
+  Obs.uncompressSubject_not_compressed h Z hc
+
+/-- the repaired `uncompress_subject` (F6): a node keeps its assertion list and gets the
+uncompressed envelope as its subject — also when that envelope is itself a node; nothing
+is merged -/
+theorem uncompressSubject_node (cs s : Env) (as : List Env) (d : Digest)
+    (hi : Inv h (.node cs as d)) (hs : uncompress h Z cs = .ok s) :
+    uncompressSubject h Z (.node cs as d) = .ok (.node s as d) :=
+  Obs.uncompressSubject_node_form h Z hi rfl hs
+
+/-- C13: uncompressing the subject after compressing it returns the identical envelope —
+for every subject case (leaf, known value, wrapped, assertion, and, for an envelope with
+assertions, a subject that is itself a node) -/
+theorem uncompressSubject_compressSubject (L : DeflateLaws Z) (e z : Env) (hi : Inv h e)
+    (hrt : RoundTrips h e.subject) (hc : e.subject.isCompressed = false)
+    (hz : compressSubject h Z e = .ok z) : uncompressSubject h Z z = .ok e := by
+  rw [Obs.compressSubject_eq h Z hi hc] at hz
+  split at hz
+  · cases hz
+  · split at hz
+    · cases hz
+    · cases hz
+      have hu : ∀ s : Env, RoundTrips h s →
+          uncompress h Z (Obs.compSubj Z s) = .ok s := fun s hs => Obs.uncompress_compressedOf h L hs
+      cases e with
+      | node s as d =>
+        simp only [Env.subject] at hrt
+        exact Obs.uncompressSubject_node_form h Z hi rfl (hu s hrt)
+      | leaf c d =>
+        simp only [Env.subject] at hrt
+        exact (Obs.uncompressSubject_nonnode_form h Z rfl rfl).trans (hu _ hrt)
+      | wrapped x d =>
+        simp only [Env.subject] at hrt
+        exact (Obs.uncompressSubject_nonnode_form h Z rfl rfl).trans (hu _ hrt)
+      | assertion p o d =>
+        simp only [Env.subject] at hrt
+        exact (Obs.uncompressSubject_nonnode_form h Z rfl rfl).trans (hu _ hrt)
+      | knownValue v d =>
+        simp only [Env.subject] at hrt
+        exact (Obs.uncompressSubject_nonnode_form h Z rfl rfl).trans (hu _ hrt)
+      | elided d => rename_i hl; exact absurd rfl hl
+      | encrypted m d => rename_i he _; exact absurd rfl he
+      | compressed c d => cases hc
+
+/-- C13: uncompressing the subject keeps the digest -/
+theorem uncompressSubject_digest (e z : Env) (hi : Inv h e)
+    (hz : uncompressSubject h Z e = .ok z) : z.digest = e.digest := by
+  cases hc : e.subject.isCompressed with
+  | false =>
+    rw [Obs.uncompressSubject_not_compressed h Z hc] at hz
+    cases hz
+    rfl
+  | true =>
+    cases e with
+    | node cs as d =>
+      simp only [Env.subject] at hc
+      cases hu : uncompress h Z cs with
+      | ok s =>
+        rw [Obs.uncompressSubject_node_form h Z hi rfl hu] at hz
+        cases hz
+        rfl
+      | err y => rw [Obs.uncompressSubject_node_unfold, hu] at hz; simp only [hc, if_true] at hz; cases hz
+      | panic y => rw [Obs.uncompressSubject_node_unfold, hu] at hz; simp only [hc, if_true] at hz; cases hz
+    | compressed c d =>
+      rw [Obs.uncompressSubject_nonnode_form h Z rfl rfl] at hz
+      exact Obs.uncompress_digest_eq h Z hz
+    | _ => cases hc
+
+/-- no panic: the decoder never panics and a canonical node has an assertion -/
+theorem uncompressSubject_no_panic (e : Env) (hc : Canon e) (s : String) :
+    uncompressSubject h Z e ≠ .panic s := by
+  intro hz
+  cases hs : e.subject.isCompressed with
+  | false =>
+    rw [Obs.uncompressSubject_not_compressed h Z hs] at hz
+    cases hz
+  | true =>
+    cases e with
+    | node cs as d =>
+      simp only [Env.subject] at hs
+      simp only [Canon] at hc
+      rw [Obs.uncompressSubject_node_unfold, if_pos hs] at hz
+      cases hu : uncompress h Z cs with
+      | ok x => rw [hu] at hz; simp only [Res.bind, Obs.newNodeUnchecked_ne h hc.2.2.1] at hz; cases hz
+      | err y => rw [hu] at hz; cases hz
+      | panic y => exact Obs.uncompress_np h Z cs y hu
+    | compressed c d =>
+      rw [Obs.uncompressSubject_nonnode_form h Z rfl rfl] at hz
+      exact Obs.uncompress_np h Z _ s hz
+    | _ => cases hs
+
+end
 end EnvVerif
